@@ -417,6 +417,14 @@ class _V:
                 b = self.block(list(st.orelse) + rest, env, ind + 1)
                 self.local_attrs = saved
                 return f"{pad}match {ln} with\n{pad}| some {bound} =>\n{a}\n{pad}| none =>\n{b}"
+            # `if <flag>: … else: …` on a boolean parameter
+            if isinstance(st.test, ast.Name) and env.get(st.test.id, ("",))[0] == BOOL:
+                saved = dict(self.local_attrs)
+                a = self.block(list(st.body) + rest, env, ind + 1)
+                self.local_attrs = dict(saved)
+                b = self.block(list(st.orelse) + rest, env, ind + 1)
+                self.local_attrs = saved
+                return f"{pad}if {env[st.test.id][1]} then\n{a}\n{pad}else\n{b}"
             c = self.str_cond(st.test, env)
             if c is not None:
                 a = self.block(list(st.body) + rest, env, ind + 1)
